@@ -29,22 +29,30 @@ def EXTRACT(x, i):
 
 
 def destructured_as_implication(v):
+    if v[0] == 'component' and v[2] == 'Implies':
+        return v[1], 0 if v[3] == 'left' else 1
+    return _destructured_raw(v)
+
+
+def _destructured_raw(v):
     """the value is component i of a raising destructuring of X as an implication -> (X, i) else None.
     Accepted idioms: Implies.extract(X)[i]; `match X: case Implies(l, r)` (attribute of X under an isinstance condition)."""
     if v[0] == 'item' and v[1][0] == 'call' and v[1][1] == ('attr', ('name', 'Implies'), 'extract') and len(v[1][2]) == 1:
         return v[1][2][0], v[2]
-    if v[0] == 'attr' and v[2] in ('left', 'right'):
-        return v[1], 0 if v[2] == 'left' else 1
     return None
 
 
 def basic_rules(ctx, py: PyRepo, w: Wiring):
     basic = w.basic
     # modus ponens ---------------------------------------------------------------------------------------------
+    from ..core.wiring import canon_components
     mf = PM.level_facts(py, basic, 'modus_ponens')
     where = py.where(basic.module, mf.node)
     ctx.require(mf.paths, 'BasicInterpreter.modus_ponens has no returning path')
     for i, rec in enumerate(mf.paths):
+        rec = dict(rec)
+        rec['conds'] = [(canon_components(c, rec['conds'], py), b) for c, b in rec['conds']]
+        rec['ret'] = canon_components(rec['ret'], rec['conds'], py) if rec['ret'] else None
         ret = rec['ret']
         ok_ret = False
         prem = None
@@ -67,11 +75,7 @@ def basic_rules(ctx, py: PyRepo, w: Wiring):
         ctx.ob('rule-guard', f'modus_ponens/path{i}', guard,
                'a path returns without requiring <antecedent of left.conclusion> == right.conclusion', where,
                facts={'conditions': [(show(c), b) for c, b in rec['conds']]})
-        # attribute-style destructuring needs an isinstance(.., Implies) condition on the path
-        if ret and ret[0] == 'call' and ret[2] and ret[2][0][0] == 'attr' and ret[2][0][2] == 'right':
-            isi = any(b is True and c[0] == 'isinstance' and c[1] == CONC('left') and c[2] == ('name', 'Implies')
-                      for c, b in rec['conds'])
-            ctx.ob('rule-guard', f'modus_ponens/destructure{i}', isi, 'premise used as an implication without checking that it is one', where)
+        # attribute-style destructuring without an isinstance / case decision stays an `attr` and is not accepted above
     # generalization -------------------------------------------------------------------------------------------
     mf = PM.level_facts(py, basic, 'exists_generalization')
     where = py.where(basic.module, mf.node)
